@@ -223,6 +223,87 @@ pub fn run_episode(ctx: &mut Ctx, tcp: &HuginnNetTcp, e: &Episode, link: Link) {
     }
 }
 
+/// Several connections alive at once, as many as the analyzer was sized for: their segments are
+/// interleaved on one analyzer, and each connection must still be judged by the documented rule
+/// from its own references (no entry may push out another connection's or direction's entry).
+/// `unified` picks the entry point: the unified analyzer (own tracker sized from
+/// max_connections) or the TCP analyzer's per-packet entry point with a tracker of
+/// tracker_capacity(max_connections).
+fn run_crowd(ctx: &mut Ctx, eps_: &[Episode], unified: bool) {
+    let k = eps_.len();
+    let cfg = huginn_net::AnalysisConfig { tcp_enabled: true, http_enabled: false, tls_enabled: false, matcher_enabled: false };
+    let mut uni = if unified {
+        match huginn_net::HuginnNet::new(None, k, Some(cfg)) {
+            Ok(u) => Some(u),
+            Err(e) => {
+                ctx.judge(false, &[], "unified analyzer refused a valid configuration", || json!({"error": e.to_string()}));
+                return;
+            }
+        }
+    } else {
+        None
+    };
+    let tcp = HuginnNetTcp::new(None, k).expect("analyzer");
+    let mut tracker = TtlCache::new(huginn_net_tcp::uptime::tracker_capacity(k));
+    let mut order: Vec<(u64, usize, usize)> = Vec::new();
+    for (c, e) in eps_.iter().enumerate() {
+        for (i, s) in e.segs.iter().enumerate() {
+            order.push((s.at_ms, c, i));
+        }
+    }
+    order.sort();
+    let mut models: Vec<RefUptime> = (0..k).map(|_| RefUptime::new()).collect();
+    let started = std::time::Instant::now();
+    let mut history = Vec::new();
+    for (at, c, i) in order {
+        let e = &eps_[c];
+        let s = &e.segs[i];
+        let (sp, dp) = if s.from_client { (e.ep.cport, e.ep.sport) } else { (e.ep.sport, e.ep.cport) };
+        let (want, _) = models[c].step(s, sp, dp);
+        let frame = frame_of(&e.ep, s, Link::Ethernet);
+        huginn_net_tcp::verif_hooks::clock::set_ms(at);
+        let res = guard(|| match uni.as_mut() {
+            Some(u) => {
+                let r = u.analyze_tcp(&frame);
+                (r.tcp_client_uptime, r.tcp_server_uptime)
+            }
+            None => match tcp.verif_process_packet(&frame, &mut tracker) {
+                Ok(t) => (t.client_uptime, t.server_uptime),
+                Err(_) => (None, None),
+            },
+        });
+        let (cu, su) = match res {
+            Ok(x) => x,
+            Err(p) => {
+                ctx.judge(false, &[], "panic while analysing a timestamped segment", || json!({"panic": p, "frame_hex": hex(&frame)}));
+                return;
+            }
+        };
+        if started.elapsed().as_secs() >= 5 {
+            ctx.inconclusive("episode exceeded 5 s of wall time (TTL cache could have expired)");
+            return;
+        }
+        let got_desc = format!(
+            "client={:?} server={:?}",
+            cu.as_ref().map(|u| (u.freq, u.days, u.hours, u.min, u.up_mod_days)),
+            su.as_ref().map(|u| (u.freq, u.days, u.hours, u.min, u.up_mod_days))
+        );
+        history.push(json!({"connection": c, "at_ms": at, "from_client": s.from_client, "flags": s.flags, "tsval": s.tsval, "reported": got_desc.clone()}));
+        let ok = match (&want, cu.as_ref(), su.as_ref()) {
+            (None, None, None) => true,
+            (Some(w), Some(u), None) if w.client_role => est_eq(w, u),
+            (Some(w), None, Some(u)) if !w.client_role => est_eq(w, u),
+            _ => false,
+        };
+        let hist = history.clone();
+        ctx.judge(ok, &[], "reported uptime estimate differs from the documented rule (as many live connections as the analyzer was sized for)", || {
+            json!({"entry_point": if unified { "HuginnNet::analyze_tcp" } else { "HuginnNetTcp per-packet + tracker_capacity(max_connections)" }, "max_connections": k, "connection": c, "endpoints": e.ep.key(),
+                   "expected": format!("{want:?}"), "actual": got_desc, "history": hist})
+        });
+        ctx.bucket(&format!("crowd/{}/k{}/{}", if unified { "unified" } else { "tcp" }, k, match &want { None => "none".to_string(), Some(w) => format!("{}-f{}", if w.client_role { "cli" } else { "srv" }, w.freq) }));
+    }
+}
+
 fn est_eq(w: &Est, u: &huginn_net_tcp::UptimeOutput) -> bool {
     u.freq == w.freq as f64
         && u.days == w.days
@@ -312,6 +393,32 @@ pub fn run(ctx: &mut Ctx) {
     }
     if !ctx.miri() {
         ctx.exhaustive("every integer frequency 0..1600 Hz x 13 intervals around the 25 ms/100 ms/600 s boundaries x 8 base timestamps (incl. wrapping), forward movement");
+    }
+
+    // ---- A2: differences around half the 32-bit range (the boundary between "forward" and
+    // "backward" movement): 2^31-2 .. 2^31+2 ticks over every interval, every base
+    for d in [0x7fff_fffeu32, 0x7fff_ffff, 0x8000_0000, 0x8000_0001, 0x8000_0002] {
+        for iv in INTERVALS {
+            for base in BASES {
+                idx += 1;
+                if !ctx.mine(idx) {
+                    continue;
+                }
+                let fc = idx % 2 == 0;
+                let (fl0, fl1) = if fc { (flags::SYN, flags::ACK) } else { (flags::SYN | flags::ACK, flags::ACK | flags::PSH) };
+                let ep = eps(idx, idx % 5 == 0, 41000 + (idx % 20000) as u16, 443);
+                let e = Episode {
+                    ep,
+                    segs: vec![
+                        Seg { at_ms: T0, from_client: fc, flags: fl0, tsval: base },
+                        Seg { at_ms: T0 + iv, from_client: fc, flags: fl1, tsval: base.wrapping_add(d) },
+                        Seg { at_ms: T0 + iv + 1000, from_client: fc, flags: fl1, tsval: base.wrapping_add(d).wrapping_add(100) },
+                    ],
+                    tag: "half-range-difference",
+                };
+                run_episode(ctx, &tcp, &e, Link::Ethernet);
+            }
+        }
     }
 
     // ---- B: tick counts around the minimum (0..8) and rates around the 1 Hz / 1500 Hz / 10% boundaries
@@ -449,6 +556,34 @@ pub fn run(ctx: &mut Ctx) {
         let e = Episode { ep, segs, tag: "interleaved" };
         run_episode(ctx, &tcp, &e, if k % 3 == 0 { Link::RawIp } else { Link::Ethernet });
     }
+    // ---- E: as many connections alive at once as the analyzer was sized for, both entry points
+    let n = ctx.scale(6_000, 120_000, 20) / ctx.nshards as u64 + 1;
+    let mut r: Rng = ctx.rng(1919);
+    for j in 0..n {
+        let k = *r.pick(&[1usize, 1, 2, 3, 5, 8]);
+        let mut crowd = Vec::new();
+        for c in 0..k {
+            let ep = eps(50_000_000 + (j * 8 + c as u64) + (ctx.shard as u64) * 1_000_000, r.chance(1, 4), 1025 + r.u16() % 60000, *r.pick(&[80u16, 443, 8080]));
+            let cf = *r.pick(&[10u64, 100, 250, 1000]);
+            let sf = *r.pick(&[100u64, 200, 1000, 1024]);
+            let (c_base, s_base) = (r.u32(), r.u32());
+            let t0 = T0 + r.below(20);
+            let mut segs = vec![
+                Seg { at_ms: t0, from_client: true, flags: flags::SYN, tsval: c_base },
+                Seg { at_ms: t0 + 1 + r.below(20), from_client: false, flags: flags::SYN | flags::ACK, tsval: s_base },
+            ];
+            let mut t = T0 + 60;
+            for _ in 0..2 + r.usize(4) {
+                t += *r.pick(&[30u64, 100, 250, 1000, 20_000]);
+                let fc = r.chance(1, 2);
+                let (base, f, t_ref) = if fc { (c_base, cf, t0) } else { (s_base, sf, segs[1].at_ms) };
+                let ticks = (f as u128 * (t - t_ref) as u128 / 1000) as u64;
+                segs.push(Seg { at_ms: t, from_client: fc, flags: flags::ACK, tsval: base.wrapping_add(ticks as u32) });
+            }
+            crowd.push(Episode { ep, segs, tag: "crowd" });
+        }
+        run_crowd(ctx, &crowd, j % 2 == 0);
+    }
     huginn_net_tcp::verif_hooks::clock::clear();
 }
 
@@ -459,6 +594,7 @@ pub fn spec() -> PropSpec {
         shards: super::shards_8_16,
         rule: "episodes of timestamped segments with virtual arrival times are analysed by HuginnNetTcp on a fresh tracker and every per-segment report (or absence of one) is compared with an exact-rational state machine of the documented estimator: every integer rate 0..1600 Hz x intervals at the 25 ms/100 ms/600 s boundaries x base timestamps incl. 2^32 wrap, minimum-tick and grid-boundary cases, backward movement, and seeded interleaved client/server sequences with independent clocks; a bucket is a distinct (episode family, role, reported grid frequency or 'none' position, day class)",
         assumptions: &[
+            "family E: k = 1..8 live connections on an analyzer built for max_connections = k (unified analyzer; TCP analyzer with tracker_capacity(k))",
             "the reference of an endpoint is the first timestamped segment seen for its (direction, role) key, as in p0f (a successful estimate does not replace it); in the sweep families a third segment is only included when measuring from the first or from the previous segment gives the same value, the interleaved family judges later segments against the first reference",
             "backward timestamp movement is judged by the crate's documented inversion and 100 ms grace rule (tests/backward_timestamps.rs), which the property statement does not spell out",
             "wrap period accepts both floor((2^32-1)/(f*86400)) and floor(2^32/(f*86400))",
